@@ -79,8 +79,26 @@ fn gen_dist(r: &mut Xo) -> (Dist, usize) {
     loop {
         let fam = r.below(11);
         let dt = gen_type(r, fam);
-        let start = *r.pick(&[0.0, 0.0, 0.0, 1.0, -1.0, 1.0e6, f64::NAN, f64::INFINITY, f64::NEG_INFINITY, f64::MAX]);
-        let max = *r.pick(&[0.0, 0.0, 0.0, 1.0, 1000.0, 1.0e-300, f64::NAN, f64::INFINITY, f64::NEG_INFINITY, f64::MAX, -1.0]);
+        let (start, max) = if r.chance(1, 4) {
+            // values that are not exactly representable sums: rounding in start/max arithmetic matters
+            let st = match r.below(4) {
+                0 => r.unit_f64(),
+                1 => -r.unit_f64() * 10.0,
+                2 => *r.pick(&[0.1, 0.3, 0.7, -0.7, 1.0e16 + 2.0, -1.0000000000000002e16, 3.3333333333333335]),
+                _ => r.unit_f64() * 1.0e6,
+            };
+            let mx = match r.below(3) {
+                0 => st.abs() + r.unit_f64(),
+                1 => *r.pick(&[0.9, 0.3, 1.1, 0.1, 2.0 / 3.0, 1.0, 1.0e-3]),
+                _ => r.unit_f64() * 10.0,
+            };
+            (st, mx)
+        } else {
+            (
+                *r.pick(&[0.0, 0.0, 0.0, 1.0, -1.0, 1.0e6, f64::NAN, f64::INFINITY, f64::NEG_INFINITY, f64::MAX]),
+                *r.pick(&[0.0, 0.0, 0.0, 1.0, 1000.0, 1.0e-300, 1.0e-20, f64::EPSILON, f64::MIN_POSITIVE, f64::NAN, f64::INFINITY, f64::NEG_INFINITY, f64::MAX, -1.0]),
+            )
+        };
         let d = Dist::new(dt, start, max);
         if d.validate().is_ok() {
             return (d, fam as usize);
